@@ -354,7 +354,7 @@ func (z *skolemizer) elim(n *sx, pos bool, path string) (*sx, bool) {
 
 // smtSkolemized: the obligation with every quantifier eliminated as described above. "" when the
 // goal has no quantifier.
-func (o *Obligation) smtSkolemized() string {
+func (o *Obligation) smtSkolemized(level int) string {
 	if !strings.Contains(o.Goal, "(forall ") && !strings.Contains(o.Goal, "(exists ") {
 		return ""
 	}
@@ -394,11 +394,16 @@ func (o *Obligation) smtSkolemized() string {
 	// ground terms of the goal's definitional cone (loop counters, lengths, keys read in the
 	// iteration) are instantiation candidates too: "the invariant extends by one iteration"
 	// needs the quantified hypotheses at the current index, not only at the witness
-	ground := o.coneGround(declSorts(decls))
+	var ground []skolem
+	maxRounds := 2
+	if level > 0 {
+		ground = o.coneGround(declSorts(decls))
+		maxRounds = 3
+	}
 	z.sk = append(z.sk, ground...)
 	var out []string
 	var goalOut string
-	for round := 0; round < 3; round++ {
+	for round := 0; round < maxRounds; round++ {
 		z.found = nil
 		z.budget = 4000
 		out = out[:0]
@@ -432,6 +437,9 @@ func (o *Obligation) smtSkolemized() string {
 			}
 		}
 		for _, c := range z.order {
+			if level == 0 {
+				break
+			}
 			if !seen[c] && len(next) < 48 {
 				seen[c] = true
 				next = append(next, skolem{c, z.decl[c]})
